@@ -636,6 +636,35 @@ func TestVerifC03(t *testing.T) {
 		}
 	}
 
+	// the same verifications from fresh goroutines at EVERY STACK DEPTH of a sweep (the stack moves at another point inside
+	// the call each time): valid stays valid, invalid stays invalid
+	{
+		var sel []*c03case
+		for _, c := range cases {
+			if len(sel) < 24 && len(c.px) == 32 && len(c.s) == 32 && (len(sel)%2 == 0) == ref.SM2Verify(c.px, c.py, c.e, c.r, c.s) {
+				sel = append(sel, c)
+			}
+		}
+		if len(sel) > 0 {
+			// the model's answers are computed BEFORE the sweep: the model is stack-hungry itself, and a stack that has
+			// already grown does not move inside the call under observation
+			wants := make([]bool, len(sel))
+			for i, c := range sel {
+				wants[i] = ref.SM2Verify(c.px, c.py, c.e, c.r, c.s)
+			}
+			hk.AtStackDepths(hk.N(900, 2500), 96<<10, 8, func(depth int) {
+				c := sel[depth%len(sel)]
+				want := wants[depth%len(sel)]
+				var ok bool
+				p, msg, _, _ := hk.Try(func() { ok, _ = VerifyHashed(c.px, c.py, c.e, c.r, c.s) })
+				if p || ok != want {
+					rep.Violation("verify-wrong-when-the-stack-grows-inside-the-call", hk.D{"stack_depth_frames": depth, "label": c.label, "got": ok, "model": want, "panic": msg, "px": hk.Hex(c.px), "py": hk.Hex(c.py), "e": hk.Hex(c.e), "r": hk.Hex(c.r), "s": hk.Hex(c.s)})
+				}
+			})
+			rep.EvalN("stack-depth-sweep", hk.N(900, 2500))
+		}
+	}
+
 	// sequential HISTORIES: one goroutine verifies a long sequence of signatures under a handful of
 	// related keys (P, -P, [2]P, Q, -Q: same x with the other y, small multiples), valid and invalid,
 	// in an order that revisits keys; every answer is compared with the model (state kept from one
